@@ -646,9 +646,12 @@ class Share(object):
         """
         If key in ._data, return value at key
         Otherwise set value at key to default and return default
+        Raises KeyError if key is not a valid field name
         """
-        value = self._data.__dict__.setdefault(key, default)
-        return value
+        if key in self._data.__dict__:
+            return self._data.__dict__[key]
+        self[key] = default  # item assignment verifies the field name
+        return default
 
     def sift(self, fields=None):
         """
